@@ -2,12 +2,16 @@
 (* C07: the case space is too big for a case file (7^0+..+7^8 strings), so the driver enumerates it itself in the *)
 (* order of PathNorm!Succ and the trace spec checks that order and completeness.  What TLC generates here is the  *)
 (* description of the space, from the same constants the specification is checked with: alphabet (in order),     *)
-(* MaxLen, the number of strings Total(MaxLen), and the alphabet / length range of the random longer strings.     *)
+(* MaxLen, the number of strings Total(MaxLen), the alphabet / length range of the random longer strings, and    *)
+(* the pads (long prefixes / suffixes) that the cores of length <= PadMax are additionally wrapped in.            *)
 EXTENDS PathNorm, Json, IOUtils
-CONSTANTS RandMax
+CONSTANTS RandMax,    \* longest random string
+          PadMax      \* cores of length <= PadMax are also run wrapped in every pad of PathNorm!Pads (0: none)
 ASSUME ndJsonSerialize(IOEnv.VERIF_OUT,
          <<[alphabet |-> Alphabet, maxlen |-> MaxLen, total |-> Total(MaxLen),
-            randAlphabet |-> Alphabet10, randMin |-> MaxLen + 1, randMax |-> RandMax]>>)
+            randAlphabet |-> Alphabet10, randMin |-> MaxLen + 1, randMax |-> RandMax,
+            padMax |-> PadMax, padTotal |-> IF PadMax = 0 THEN 0 ELSE Total(PadMax),
+            pads |-> [i \in 1 .. Len(Pads) |-> [pre |-> Pads[i][1], post |-> Pads[i][2]]]]>>)
 GenInit == cur = << >>
 GenNext == UNCHANGED cur
 =============================================================================
